@@ -13,6 +13,8 @@ pub static NALLOC: AtomicUsize = AtomicUsize::new(0);
 pub static LARGEST: AtomicUsize = AtomicUsize::new(0);
 /// Requests above this are refused (null), which makes Rust abort; 0 = unlimited.
 pub static CEILING: AtomicUsize = AtomicUsize::new(0);
+/// Requests that would take the live heap above this are refused as well; 0 = unlimited.
+pub static LIVE_CEILING: AtomicUsize = AtomicUsize::new(0);
 pub static REFUSED: AtomicBool = AtomicBool::new(false);
 pub static REFUSED_SIZE: AtomicUsize = AtomicUsize::new(0);
 
@@ -32,7 +34,8 @@ fn on_alloc(size: usize) {
 #[inline]
 fn refuse(size: usize) -> bool {
     let c = CEILING.load(Relaxed);
-    if c != 0 && size > c {
+    let lc = LIVE_CEILING.load(Relaxed);
+    if (c != 0 && size > c) || (lc != 0 && size > 4096 && LIVE.load(Relaxed).saturating_add(size) > lc) {
         REFUSED.store(true, Relaxed);
         REFUSED_SIZE.store(size, Relaxed);
         // journal without allocating
@@ -131,4 +134,8 @@ impl Window {
 
 pub fn set_ceiling(bytes: usize) {
     CEILING.store(bytes, Relaxed);
+}
+
+pub fn set_live_ceiling(bytes: usize) {
+    LIVE_CEILING.store(bytes, Relaxed);
 }
